@@ -35,7 +35,7 @@ METHODS = ["GET", "HEAD", "POST"]
 STATUSES = ["200 OK", "204 No Content", "304 Not Modified", "100 Continue"]
 CLMODES = ["absent", "exact", "larger", "smaller"]
 SHAPES = ["empty", "one", "several", "write", "mixed", "write-one"]
-RETS = ["list", "tuple", "gen", "iterlen", "fw_seek", "fw_noseek", "fw_seek_big", "fw_seek_pos"]
+RETS = ["list", "tuple", "gen", "iterlen", "fw_seek", "fw_noseek", "fw_seek_big", "fw_seek_pos", "fw_seek_lc", "list_lc"]
 FAILS = ["none", "before-sr", "after-sr", "after-output", "replaced"]
 SENDS = ["all", "one", "blocked"]
 SEND_PATTERNS = {"all": (-1,), "one": (1,), "blocked": (0, 0, -1)}
@@ -75,6 +75,9 @@ def build_cell(cell):
         # no body bytes for HEAD (outside the quantifier otherwise)
         if shape != "empty" or ret.startswith("fw_"):
             return None
+    if ret == "list_lc":
+        prog["ret"] = ret = "list"
+        prog["cl_name"] = "CONTENT-LENGTH"
     if ret.startswith("fw_"):
         if shape not in ("empty", "write"):
             return None
@@ -88,6 +91,10 @@ def build_cell(cell):
         if ret == "fw_seek_pos":
             pos = 3
             prog["ret"] = "fw_seek"
+        if ret == "fw_seek_lc":
+            # the application spells its length header in lower case
+            prog["ret"] = "fw_seek"
+            prog["cl_name"] = "content-length"
         prog["fw"] = {"content": content, "pos": pos}
         produced_len = len(content) - pos + sum(len(a) for op, a in prog["steps"] if op == "write")
     else:
